@@ -98,11 +98,14 @@ class Program:
                 self.classes[cq] = ci
                 for it in node.body:
                     if isinstance(it, (ast.FunctionDef, ast.AsyncFunctionDef)):
-                        q = cq + '.' + it.name
+                        is_setter = any(isinstance(d, ast.Attribute) and d.attr == 'setter' for d in it.decorator_list)
+                        nm = it.name + '#setter' if is_setter else it.name
+                        q = cq + '.' + nm
                         fi = FuncInfo(q, mod, cq, it, ast.get_source_segment(src, it), path)
                         # later definitions with the same name override earlier ones, as in Python
+                        # (a @x.setter definition is kept beside the getter)
                         self.funcs[q] = fi
-                        ci.methods[it.name] = fi
+                        ci.methods[nm] = fi
                     elif isinstance(it, ast.Assign) and len(it.targets) == 1 and isinstance(it.targets[0], ast.Name):
                         name = it.targets[0].id
                         v = it.value
